@@ -94,7 +94,7 @@ Definition seen_ok (mws : list mw) (m0 : mstate) (v : vstate) : bool :=
   meta_equiv (v_meta v) (m_meta m0)
   && Bool.eqb (v_same v) (match push_layers mws (m_ctx m0) with [] => true | _ => false end)
   && Bool.eqb (v_done v) (ctx_done m0)                 (* the deadline has not passed: alive unless it came dead *)
-  && optZ_eqb (v_deadline v) (min_deadline (push_layers mws (m_ctx m0)))
+  && optZ_eqb (v_deadline v) (dl_min (m_base_dl m0) (min_deadline (push_layers mws (m_ctx m0))))
   && settle_eqb (v_settle v) (if has_ack mws then ack_settle (m_settle m0) else m_settle m0).
 
 (** "the effect ends with the call": the message context afterwards is the context before *)
